@@ -237,6 +237,56 @@ fn check_pair(l: &mut Laws<'_>, i: usize, j: usize, reps: usize, rng: &mut Rng, 
                 }
                 _ => {}
             }
+            // Value itself against ValueViewCmp and against bare Rust scalars / string types
+            {
+                let mut same = (a == ValueViewCmp::new(&b)) == cow_b;
+                match &rb {
+                    RVal::Int(n) => same &= (a == *n) == cow_b,
+                    RVal::Float(f) => same &= (a == *f) == cow_b && (ValueCow::Borrowed(&a) == *f) == cow_b,
+                    RVal::Bool(x) => same &= (a == *x) == cow_b,
+                    RVal::Str(x) => {
+                        let (ks, kc) = (liquid::model::KString::from_ref(x), liquid::model::KStringCow::from_ref(x));
+                        same &= (a == *x.as_str()) == cow_b
+                            && (a == x.as_str()) == cow_b
+                            && (a == x.clone()) == cow_b
+                            && (a == ks) == cow_b
+                            && (a == kc) == cow_b
+                            && (ValueCow::Borrowed(&a) == x.as_str()) == cow_b
+                            && (ValueCow::Borrowed(&a) == x.clone()) == cow_b
+                            && (ValueCow::Borrowed(&a) == ks) == cow_b
+                            && (ValueCow::Borrowed(&a) == kc) == cow_b;
+                    }
+                    RVal::DateTime(t) => {
+                        if let Some(d) = liquid::model::DateTime::from_str(t) {
+                            same &= (a == d) == cow_b && (ValueCow::Borrowed(&a) == d) == cow_b;
+                        }
+                    }
+                    RVal::Date(t) => {
+                        if let Some(d) = liquid::model::Date::from_str(t) {
+                            same &= (a == d) == cow_b && (ValueCow::Borrowed(&a) == d) == cow_b;
+                        }
+                    }
+                    _ => {}
+                }
+                if !same {
+                    cow_v = !cow_b;
+                }
+            }
+            // scalar against scalar through ScalarCow and its impls for bare Rust scalars
+            if let (Some(sa), Some(sb)) = (liquid::ValueView::as_scalar(&a), liquid::ValueView::as_scalar(&b)) {
+                let want_cmp = a.partial_cmp(&b);
+                let mut same = (sa == sb) == cow_b && sa.partial_cmp(&sb) == want_cmp;
+                match &rb {
+                    RVal::Int(n) => same &= (sa == *n) == cow_b && sa.partial_cmp(n) == want_cmp,
+                    RVal::Float(f) => same &= (sa == *f) == cow_b && sa.partial_cmp(f) == want_cmp,
+                    RVal::Bool(x) => same &= (sa == *x) == cow_b && sa.partial_cmp(x) == want_cmp,
+                    RVal::Str(x) => same &= (sa == *x.as_str()) == cow_b && sa.partial_cmp(x.as_str()) == want_cmp,
+                    _ => {}
+                }
+                if !same {
+                    cow_v = !cow_b;
+                }
+            }
             (c, cv, rev, cow_b, cow_o, cow_v)
         });
         let (c, cv, rev, cow_b, cow_o, cow_v) = match r {
@@ -260,7 +310,7 @@ fn check_pair(l: &mut Laws<'_>, i: usize, j: usize, reps: usize, rng: &mut Rng, 
             l.fail("api-disagreement:Value-vs-ValueViewCmp", format!("{}: Value gives {cv}", desc()), i, j);
         }
         if cow_b != eq || cow_o != eq || cow_v != eq {
-            l.fail("api-disagreement:ValueCow", format!("{}: ValueCow borrowed/owned/vs-Value|ValueViewCmp|bare-scalar eq = {cow_b}/{cow_o}/{cow_v}", desc()), i, j);
+            l.fail("api-disagreement:ValueCow", format!("{}: ValueCow borrowed/owned/vs-Value|ValueViewCmp|bare-scalar|ScalarCow eq = {cow_b}/{cow_o}/{cow_v}", desc()), i, j);
         }
         // construction independence
         match &first {
